@@ -97,15 +97,16 @@ fn start_worker() -> Worker {
     Worker { channel: main_ch, n: 0 }
 }
 
-fn read_request(s: &mut TcpStream) -> bool {
+/// reads up to the end of the request head; -> number of body bytes already read behind it
+fn read_request(s: &mut TcpStream) -> Option<usize> {
     let mut acc: Vec<u8> = vec![];
     let mut buf = [0u8; 4096];
     loop {
-        if acc.windows(4).any(|w| w == b"\r\n\r\n") {
-            return true;
+        if let Some(p) = acc.windows(4).position(|w| w == b"\r\n\r\n") {
+            return Some(acc.len() - p - 4);
         }
         match s.read(&mut buf) {
-            Ok(0) | Err(_) => return false,
+            Ok(0) | Err(_) => return None,
             Ok(n) => acc.extend_from_slice(&buf[..n]),
         }
     }
@@ -138,9 +139,7 @@ fn backend(listener: TcpListener, scn: Scn, until: Instant) {
         s.set_read_timeout(Some(Duration::from_secs(10))).unwrap();
         let _ = s.set_nodelay(true);
         served += 1;
-        if !read_request(&mut s) {
-            continue;
-        }
+        let Some(body_seen) = read_request(&mut s) else { continue };
         let full_cl = format!("{HEAD_CL}{BODY}");
         let full_ch = format!("{HEAD_CH}{CHUNKED_BODY}");
         let full_cd = format!("{HEAD_CD}{BODY}");
@@ -172,6 +171,28 @@ fn backend(listener: TcpListener, scn: Scn, until: Instant) {
             "stall" => held.push(s),
             "garbage" => {
                 let _ = s.write_all(b"\x00\x01GARBAGE NOT HTTP\r\n\r\n\xff\xfe");
+                held.push(s);
+            }
+            "early_response" => {
+                // answer right after the request head, without waiting for the body
+                let _ = s.write_all(full_cl.as_bytes());
+                held.push(s);
+            }
+            "continue100" | "expect100" | "hints103" => {
+                let interim = if scn.kind == "hints103" { "HTTP/1.1 103 Early Hints\r\nLink: </s.css>; rel=preload\r\n\r\n" } else { "HTTP/1.1 100 Continue\r\n\r\n" };
+                let _ = s.write_all(interim.as_bytes());
+                let _ = s.flush();
+                // then the whole request body, then the final answer
+                let mut got = body_seen;
+                let mut buf = [0u8; 4096];
+                let _ = s.set_read_timeout(Some(Duration::from_secs(3)));
+                while got < 64 {
+                    match s.read(&mut buf) {
+                        Ok(0) | Err(_) => break,
+                        Ok(n) => got += n,
+                    }
+                }
+                let _ = s.write_all(full_cl.as_bytes());
                 held.push(s);
             }
             "cl_close_twice" => {
@@ -240,7 +261,11 @@ fn read_response(s: &mut TcpStream, acc: &mut Vec<u8>, settle: bool) -> Resp {
                 }
             }
             let rest = &acc[pos + 4..];
-            if chunked {
+            if status / 100 == 1 || status == 204 || status == 304 {
+                // no body by definition
+                complete = true;
+                used = pos + 4;
+            } else if chunked {
                 // strict chunk reader
                 let mut i = 0usize;
                 loop {
@@ -317,6 +342,27 @@ fn client(front: SocketAddr, scn: Scn) -> Vec<Resp> {
             // half a request, then silence: the proxy owes a 408
             let _ = s.write_all(&req.as_bytes()[..req.len() - 6]);
             out.push(read_response(&mut s, &mut acc, true));
+        }
+        "early_response" | "continue100" | "hints103" | "expect100" => {
+            // a request with a 64-byte body sent in two halves; the backend answers after the head
+            // (early_response), or sends an interim 100 / 103 first
+            let expect = if scn.kind == "expect100" { "Expect: 100-continue\r\n" } else { "" };
+            let head = format!("POST /x HTTP/1.1\r\nHost: {host}\r\n{expect}Content-Length: 64\r\n\r\n");
+            let body = [b'b'; 64];
+            let _ = s.write_all(head.as_bytes());
+            let _ = s.write_all(&body[..32]);
+            let r1 = read_response(&mut s, &mut acc, false);
+            let interim = r1.status / 100 == 1;
+            out.push(r1);
+            let _ = s.write_all(&body[32..]);
+            if interim {
+                out.push(read_response(&mut s, &mut acc, true));
+            } else {
+                // the rest of the body of an already answered request must not produce a second answer
+                let mut r2 = read_response(&mut s, &mut acc, true);
+                r2.extra = r2.body + if r2.status != 0 { 1 } else { 0 };
+                out.push(r2);
+            }
         }
         "keepalive_close" | "cl_close_twice" => {
             let _ = s.write_all(req.as_bytes());
